@@ -1815,6 +1815,9 @@ class ArmV6:
             if not opcode_c:
                 raise UndefinedInstructionException()
             opcode_c = opcode_c.from_bitarray(instr, self)
+            if not opcode_c:
+                # from_bitarray() rejects UNPREDICTABLE encodings, treat them as UNDEFINED
+                raise UndefinedInstructionException()
             self.execute_instruction(opcode_c)
             self.increment_pc_if_needed()
         except EndOfInstruction:
